@@ -18,7 +18,7 @@ EXPLANATION = ("The real smoothers and EnergyResult.dataSmooth run on symbolic d
                "linearity, constant preservation, axis locality, commutation and 'dataSmooth = composition of all axis smoothers' are polynomial identities decided by z3.")
 ASSUMPTIONS = ["evenly spaced energy grid (documented)", "kernel weights positive (symbolic-kernel cases)"]
 OUTSIDE = ["rounding of the float kernel normalisation (constant preservation is claimed to 1e-12 for concrete kernels, exactly for symbolic ones)"]
-STUBS = []
+STUBS = ["np.zeros in smoother.py: a buffer allocated with a real dtype keeps only the real part of what is stored in it (numpy's cast), an object/complex buffer keeps everything"]
 
 
 def mk_smoother(kind, NE, dE, smear):
@@ -75,6 +75,30 @@ def mk_kernel_atoms(kind, NE):
     return symvec(f"w{NE}_{ne1}", (2 * ne1 + 1,))
 
 
+class RealSymArray(SymArray):
+    """object array standing for a buffer that the code allocated with a REAL dtype: numpy casts assigned complex values to their real part (ComplexWarning)"""
+
+    def __setitem__(s, idx, v):
+        if isinstance(v, np.ndarray) and v.dtype == object:
+            v = v.real
+        elif isinstance(v, SymC):
+            v = v.real
+        return SymArray.__setitem__(s, idx, v)
+
+
+class SMnp(NpProxy):
+    """np for smoother.py: typed allocations keep their meaning — a float buffer holds real parts only"""
+
+    def zeros(s, shape, dtype=None, **k):
+        if dtype in (float, np.float64, 'float', 'float64'):
+            a = np.empty(shape, dtype=object)
+            a[...] = SymC.of(0)
+            return a.view(RealSymArray)
+        if dtype is not None and np.dtype(dtype) == np.dtype(object):
+            return np.zeros(shape, dtype=object).view(SymArray)
+        return NpProxy.zeros(s, shape, dtype=dtype, **k)
+
+
 def cmp_(rec, kinds, name, a, b, key):
     """exact identity for symbolic kernels; 1e-12 (|data|<=1) for concrete kernels, whose float normalisation .sum() is rounded by numpy"""
     if all(k.startswith("sym") or k == "void" for k in kinds):
@@ -85,6 +109,7 @@ def cmp_(rec, kinds, name, a, b, key):
 def case_single(rec, kind, NE, dE, smear, trailing, axis_pos):
     """one smoother applied along one axis of an array with other (non-energy) axes before/after"""
     sm = mk_smoother(kind, NE, dE, smear)
+    shadow([SM], proxy=SMnp())
     shape = list(trailing)
     shape.insert(axis_pos, NE)
     A = symvec("A", tuple(shape), real=False)
@@ -115,6 +140,7 @@ def case_result(rec, kinds, NEs, dE, smear, rank):
     """EnergyResult.dataSmooth with len(kinds) energy axes"""
     from wannierberri.symmetry.point_symmetry import transform_ident
     sms = [mk_smoother(k, ne, dE, smear) for k, ne in zip(kinds, NEs)]
+    shadow([SM], proxy=SMnp())
     shape = tuple(NEs) + (3,) * rank
     data = symvec("D", shape, real=False)
     ass = sum((kernel_assumptions(s) for s in sms), [])
